@@ -116,6 +116,10 @@ def check(ctx, rule, name):
         from .rules import Inconclusive
         raise Inconclusive('census table has no entry for %s' % name)
     ent = table[name]
+    if not ctx.prog.has(name):
+        # a checker is a guard, not an anchor: its disappearance is reported, it does not make the run inconclusive
+        ctx.ob(rule, name, 'the reviewed checker function is still present', False, problem='function not found in the analysed crate (removed or renamed)')
+        return []
     ctx.fn(ctx.prog.body(name))
     actual, inl = compute(ctx.prog, name, tuple(ent.get('opaque', ())), bool(ent.get('effects')), ent.get('sinks'), bool(ent.get('closures')))
     for g in set(inl):
